@@ -6,35 +6,6 @@ namespace WalCodec
 
 variable (upd : Nat → Bytes → Nat)
 
-/-- what the caller hands to `encoder.encode`: a type and a payload -/
-structure Item where
-  type : Nat
-  data : Bytes
-
-/-- `encoder.encode` over a list, threading `e.crc` -/
-def encodeAll : Nat → List Item → Bytes
-| _, [] => []
-| crc, it :: rest =>
-    let crc' := upd crc it.data
-    encodeFrame ⟨it.type, crc', some it.data⟩ ++ encodeAll crc' rest
-
-/-- `decoder.decode` in a loop (records of the CRC-seeding type are not part of this sketch): stop at a zero length
-    field / end of data (`none` from `decodeFrame`), fail on a CRC mismatch -/
-def decodeAll : Nat → Nat → Bytes → Option (List Item)
-| 0, _, _ => some []
-| fuel + 1, crc, bs =>
-    match decodeFrame bs with
-    | none => some []
-    | some (r, rest) =>
-      match r.data with
-      | none => none
-      | some d =>
-        if upd crc d = r.crc then
-          match decodeAll fuel (upd crc d) rest with
-          | none => none
-          | some items => some (⟨r.type, d⟩ :: items)
-        else none
-
 /-- eight zero bytes — what the preallocated tail looks like to the decoder -/
 theorem decodeFrame_zeros (tail : Bytes) : decodeFrame (List.replicate 8 0 ++ tail) = none := by
   simp [decodeFrame, List.replicate, readLE64]
